@@ -236,9 +236,23 @@ func debugDump(repo, spec string) {
 		fmt.Println("not found")
 		return
 	}
+	if os.Getenv("LC_SIGS") == "decision" {
+		var rows []string
+		for _, c := range decisionOf(fn, 0) {
+			rows = append(rows, c.String())
+		}
+		sort.Strings(rows)
+		for _, s := range rows {
+			fmt.Printf("\t\t%q,\n", s)
+		}
+		return
+	}
 	if os.Getenv("LC_SIGS") != "" {
 		for i := 0; i < fn.Signature.Results().Len(); i++ {
 			for _, sg := range retSigs(fn, i) {
+				if os.Getenv("LC_SIGS") == "decision" {
+					continue
+				}
 				if os.Getenv("LC_SIGS") == "go" {
 					fmt.Printf("\t\t%q,\n", normSig(sg))
 				} else {
